@@ -427,6 +427,16 @@ def run(ck):
                         break
             for i, (txt, ds) in enumerate(cases):
                 todo += [(txt, d) for d in (ds if len(ds) <= quota[i] else ck.rng.sample(ds, quota[i]))]
+            # always: every distinct record keyword (first word of a line) once in each other letter case
+            kw_seen = set()
+            for txt, ds in cases:
+                ls = txt.split("\n")
+                for d in ds:
+                    if d[0] == "case" and d[2] == 0:
+                        w = ls[d[1]].split()[0]
+                        if (w, d[3]) not in kw_seen:
+                            kw_seen.add((w, d[3]))
+                            todo.append((txt, d))
         else:
             for txt, ds in cases:
                 todo += [(txt, d) for d in ds]
